@@ -25,6 +25,8 @@ from harness.session import Session
 
 PROP = "C20"
 LEVEL = "exploration"
+TECHNIQUE = 'probe hooks around the bundled extrusion hook + interpreter positions and an extruder-axis model (M82/M83, G92 E)'
+LEVEL_TEXT = 'Held on random move/rapid/bypass/tracer sequences with mode switches and E resets; one listed known finding.'
 RULE = ("random sequences (20-35 steps) of moves, rapids, every tracer shape, distance-mode and "
         "extrusion-mode switches, set_axis(E=...) resets, move_hook() contexts and permanently added "
         "hooks, with random layer/nozzle/filament geometry; distinct = (distance mode, extrusion mode, "
